@@ -17,12 +17,15 @@ Allow == {id \in KnownIds : \E i \in 1..(Len(AllowIds) - Len(id) + 1) : SubSeq(A
 Prop == IF "PROP" \in DOMAIN IOEnv THEN IOEnv.PROP ELSE "C03"
 
 CfgOf(r) == [peers |-> ToSet(r.cfg.peers), lastN |-> r.cfg.lastN, allow |-> Allow,
-             interval |-> r.cfg.interval, maxOut |-> r.cfg.maxOut]
+             interval |-> r.cfg.interval, maxOut |-> r.cfg.maxOut,
+             \* peers that report invented check points (drivers for C07)
+             liars |-> IF "liars" \in DOMAIN r.x THEN ToSet(r.x.liars) ELSE {}]
 
 LcKinds == {"GetLastState", "GetLastStateProof"}
 OutOf(r) == [ban |-> ToSet(r.out.ban), drop |-> ToSet(r.out.drop),
              sent |-> {m \in ToSet(r.out.sent) : m.kind \in LcKinds}]
 
+CpReqOf(r) == {<<m.to, m.start>> : m \in {x \in ToSet(r.out.sent) : x.kind = "GetBlockFilterCheckPoints"}}
 MmemOf(st) == {<<e[1], e[2], e[3]>> : e \in ToSet(st.mmem)}
 
 LoadPs(r) ==
@@ -101,6 +104,17 @@ WrongBlockNote(a) ==
         /\ a.blk >= 1 /\ Num(world, a.blk) = Num(world, TxOf(world, a.t).b)
         /\ PrintT(<<"KNOWN-FINDING", "KF-C16-txheight", a.t, a.blk>>)
 
+\* C07, consequence 1: with fewer lying peers than the quorum, only true values become final
+CpTrue == (Cardinality(cfg.liars) < Required) =>
+             \A k \in 0..(Len(cpFinal') - 1) :
+                \E b \in BlockIds(world) : Num(world, b) = k * Interval /\ cpFinal'[k + 1] = b
+\* C07, consequence 2: they cannot block the agreement of the rest either -- once every request of the honest
+\* peers (all proven at the leaf) is answered, the final check point is the last one those peers can deliver
+CpNotBlocked(honest, leaf) ==
+    LET hp == {p \in honest : HasProof(peer[p]) /\ peer[p].proved = leaf} IN
+    (Cardinality(cfg.liars) < Required /\ Cardinality(hp) >= Required) =>
+        (Len(cpFinal) - 1) * Interval + 2 * Interval > Num(world, leaf)
+
 QuiescentEv(a) ==
     /\ UNCHANGED psCore /\ PipeUnchanged
     /\ ((Quiet /\ ~Tainted) => Complete)
@@ -109,7 +123,8 @@ Step(r) ==
     CASE r.ev = "Connect"    -> Connect(r.a.p) /\ PipeUnchangedNoFetch /\ TimeoutPeers({r.a.p})
       [] r.ev = "Disconnect" -> Disconnect(r.a.p) /\ PipeUnchangedNoFetch /\ TimeoutPeers({r.a.p})
       [] r.ev = "Advance"    -> Advance(r.a.d) /\ PipeUnchanged
-      [] r.ev = "Refresh"    -> /\ RefreshTick(Oracle(r), RequestTimeouts)
+      [] r.ev = "Refresh"    -> /\ RefreshTick(Oracle(r), RequestTimeouts, out'.ban)
+                                /\ FinalizeStep /\ CpQuorum
                                 /\ TimeoutPeers({p \in PeerNames : peer[p].st # "None" /\ TimedOut(peer[p])} \cup RequestTimeouts)
                                 /\ UNCHANGED <<scripts, startOf, minF, mdb, mmem, over, subst>> /\ IxUnchanged
                                 /\ IsPrefixSeq(cpFinal, cpFinal')       \* C07: final check points are append-only
@@ -121,14 +136,17 @@ Step(r) ==
                                 /\ (over' # over => PrintT(<<"KNOWN-FINDING", "KF-C09-rollback-number", over'>>))
       [] r.ev = "Restart"    -> Restart /\ PersistentUnchanged /\ mmem' = {} /\ fetchH' = {} /\ fetchT' = {}
       [] r.ev = "SetScripts" -> SetScripts(r.a.cmd, r.a.list)
-      [] r.ev = "FilterTick" -> IF r.a.token = 0 THEN FilterTick0 ELSE UNCHANGED psCore /\ PipeUnchanged
+      [] r.ev = "FilterTick" -> IF r.a.token = 0 THEN FilterTick0
+                                ELSE /\ UNCHANGED psCore /\ PipeUnchanged
+                                     /\ r.a.token = 2 => CpReqOf(r) = CheckPointTickAsks
       [] r.ev \in {"IdleTick", "NoAnswer"} -> UNCHANGED psCore /\ PipeUnchanged
       [] r.ev = "FetchTick"  -> FetchTick
       [] r.ev = "FetchTx"    -> RpcFetchTx(r.a.t, r.a.status, r.a.blk) /\ WrongBlockNote(r.a)
       [] r.ev = "GetTx"      -> RpcGetTx(r.a.t, r.a.status, r.a.blk) /\ WrongBlockNote(r.a)
       [] r.ev = "FetchHeader" -> RpcFetchHeader(r.a.b, r.a.status)
       [] r.ev = "TxsProof"   -> TxsProofEv(r.a)
-      [] r.ev = "CheckPoints" -> UNCHANGED psCore /\ PipeUnchanged
+      [] r.ev = "CheckPoints" -> /\ UNCHANGED psCore /\ PipeUnchanged
+                                 /\ RecvCheckPoints(r.a.p, r.a.start, r.a.vals, CpReqOf(r))
       [] r.ev = "FilterHashes" -> \* when the cached hashes are complete the handler calls try_send_get_block_filters,
                                  \* which may recover the earliest matched record like the filters tick
                                  (UNCHANGED psCore /\ PipeUnchanged) \/ (mmem' # mmem /\ FilterTick0)
@@ -137,6 +155,8 @@ Step(r) ==
       [] r.ev = "BlocksProof" -> BlocksProofEv(r.a)
       [] r.ev = "Block"      -> RecvBlock(r.a.p, r.a.b, r.a.body)
       [] r.ev = "Quiescent"  -> QuiescentEv(r.a)
+      [] r.ev = "CpQuiescent" -> /\ UNCHANGED psCore /\ PipeUnchanged
+                                 /\ CpNotBlocked(ToSet(r.a.honest), r.a.leaf)
       [] r.ev = "Crash"      -> \* process death at a storage write + restart: volatile state is gone; the persistent
                                 \* state is whatever the interrupted operation had written (loaded from the log and
                                 \* judged by the invariants from here on).  A script whose stored entry changed in the
@@ -163,6 +183,18 @@ Step(r) ==
                                 /\ UNCHANGED psCore /\ PipeUnchanged
       [] OTHER               -> FALSE
 
+\* the per-peer unfinalized vectors change only where the specification says so
+CpVectors(r) ==
+    CASE r.ev \in {"Refresh", "CheckPoints"} -> TRUE      \* FinalizeStep, RecvCheckPoints
+      [] r.ev = "Connect" -> /\ CpOnlyChange({r.a.p})
+                             /\ (peer[r.a.p].st = "None" /\ peer'[r.a.p].st # "None") =>
+                                   \* a new session starts at a final check point (the one of the last start)
+                                   /\ CpStart(pf'[r.a.p].cps) + 1 <= Len(cpFinal)
+                                   /\ CpVals(pf'[r.a.p].cps) = <<cpFinal[CpStart(pf'[r.a.p].cps) + 1]>>
+      [] r.ev = "Disconnect" -> CpOnlyChange({r.a.p}) /\ pf'[r.a.p].cps = <<0, <<>> >>
+      [] r.ev \in {"Restart", "Crash"} -> \A p \in PeerNames : pf'[p].cps = <<0, <<>> >>
+      [] OTHER -> CpOnlyChange({})
+
 TraceInit ==
     /\ l = 1
     /\ LET r == Rec[1] IN
@@ -184,6 +216,9 @@ TraceNext ==
        THEN /\ world' = r.world /\ cfg' = CfgOf(r) /\ LoadPs(r) /\ LoadFs(r) /\ startOf' = <<>> /\ over' = {} /\ subst' = {}
        ELSE /\ r.ev # "DeadStore"     \* C08: a store that aborts on every start is never a step
             /\ UNCHANGED <<world, cfg>> /\ LoadPs(r) /\ LoadFs(r) /\ Step(r)
+            /\ CpAppendOnly                \* C07: at every step, crashes included
+            /\ CpTrue
+            /\ CpVectors(r)
 
 TraceSpec == TraceInit /\ [][TraceNext]_<<l, allVars>>
 
